@@ -613,6 +613,9 @@ func runCore(seed uint64, n int, out *Out) {
 				}
 				out.Count("op.marketResolve")
 				finish(err, pan)
+				if err == nil {
+					noteResolved(e, dumpCore(e, ix), m.uid)
+				}
 			case c < 20:
 				// ---- authz grant (deposit / withdraw), sometimes revoke
 				granter, grantee := 1+r.Intn(5), 1+r.Intn(5)
@@ -825,6 +828,7 @@ func runCore(seed uint64, n int, out *Out) {
 					"kyc_data":      kyc, "all_odds": all, "meta": map[string]interface{}{"selected_odds_type": typ, "selected_odds_value": ovS, "is_main_market": false},
 				})
 				out.Op("W %d %s %d %d %d %d %s %s %d %d %s", creator, tkFields(valid, ign, appr, kid), bn, amount, m.n, uidN(sel), ovRaw, mRaw, b2i(typ <= 3), len(allOp), strings.Join(allOp, " "))
+				bettorBefore := e.Bal(e.Accts[creator])
 				err, pan := e.Tx(func(ctx sdk.Context) error {
 					msg := &bettypes.MsgWager{Creator: e.Accts[creator].String(), Props: &bettypes.WagerProps{UID: UID(clsBet, bn), Amount: sdkmath.NewInt(amount), Ticket: tk}}
 					if err := msg.ValidateBasic(); err != nil {
@@ -839,6 +843,9 @@ func runCore(seed uint64, n int, out *Out) {
 				if err == nil {
 					coreReset(h)
 					coreSeen.request[UID(clsBet, bn)] = sdkmath.NewInt(amount).Sub(bp.Constraints.Fee)
+					coreSeen.charged[UID(clsBet, bn)] = bettorBefore.Sub(e.Bal(e.Accts[creator]))
+				} else if !bettorBefore.Equal(e.Bal(e.Accts[creator])) {
+					failOnce(out, h, "C08", "failed_wager_costs_nothing", "wager", fmt.Sprint(opi), fmt.Sprintf("a failed wager changed the bettor's balance by %s", e.Bal(e.Accts[creator]).Sub(bettorBefore)))
 				}
 				out.Count("op.wager")
 				finish(err, pan)
@@ -867,6 +874,7 @@ func runCore(seed uint64, n int, out *Out) {
 				coreMonitors(out, h, e, ix, d, markets, true)
 				if !halt {
 					endBlockMonitors(out, h, e, ix, preD, d, preBal, userBalances(e))
+					settleBoundMonitor(out, h, e, d)
 				}
 				height++
 				now += r.Pick([]int64{1, 5, 5, 30, 200})
